@@ -145,6 +145,23 @@ def run(ctx: Any, prog: Program) -> None:
             form = env.form(arg)
             d = dotted(arg)
             root_like = d == 'self.path' or (isinstance(arg, ast.Call) and 'self.path' in ast.unparse(arg))
+            if not root_like and d and d.startswith('self.') and d.count('.') == 1:
+                # a prefix kept on the instance: its form is that of every value stored into the attribute, all of which must be
+                # computed in __init__ from the stored (absolute) root
+                attr_ = d.split('.')[1]
+                stores_ = [(mn, a_) for mn, mf in raw.items() for a_ in ast.walk(mf) if isinstance(a_, (ast.Assign, ast.AnnAssign)) and getattr(a_, 'value', None) is not None
+                           and any(dotted(t) == d for t in (a_.targets if isinstance(a_, ast.Assign) else [a_.target]))]
+                if not stores_:
+                    continue
+                in_init = all(mn == '__init__' for mn, _ in stores_)
+                from_root = all('self.path' in ast.unparse(a_.value) for _, a_ in stores_)
+                ctx.shape('C18.S1', in_init and from_root, fs, stores_[0][1], f'`{d}` (used as containment prefix) is computed once in __init__ from the stored root', func='RawFileSystem.__init__', text='cached containment prefix')
+                if not (in_init and from_root):
+                    continue
+                ienv = FormEnv(init, param_forms={})
+                form = frozenset.intersection(*[ienv.form(a_.value) for _, a_ in stores_])
+                arg = stores_[0][1].value
+                root_like = True
             if not root_like:
                 continue
             if SEP_TERMINATED in form:
@@ -154,7 +171,7 @@ def run(ctx: Any, prog: Program) -> None:
                 why = 'startswith(root + separator)' + (' with an equality test for the root itself' if eq else '')
             else:
                 verdict = False
-                why = f'`{ast.unparse(n)}` compares against the bare root `{ast.unparse(arg)}` (abspath result, no trailing separator): "/a/root_other/x".startswith("/a/root") is true'
+                why = f'`{ast.unparse(n)}` compares against `{ast.unparse(arg)[:110]}` which can be the bare root (abspath result, no trailing separator): "/a/root_other/x".startswith("/a/root") is true'
         if isinstance(n, ast.Call) and dotted(n.func) in ('os.path.commonpath', 'os.path.commonprefix'):
             if dotted(n.func) == 'os.path.commonprefix':
                 verdict, why = False, 'os.path.commonprefix compares character-wise, not by path component'
@@ -186,6 +203,11 @@ def run(ctx: Any, prog: Program) -> None:
     if verdict is None:
         raise AnalysisError(f'_resolve_path: containment test `{ast.unparse(test)}` is not one of the enumerated idioms')
     ctx.check('C18.S1', verdict, fs, guards[0], f'containment test `{ast.unparse(test)[:120]}`: {why}', func='RawFileSystem._resolve_path', text='containment test')
+    # the comparison is on the exact spelling: on a case-sensitive file system `Root` and `ROOT` are different directories, so a test on folded
+    # text accepts the sibling (os.path.normcase is the platform's own notion and is fine)
+    folds_ = [n for n in ast.walk(test) if isinstance(n, ast.Call) and isinstance(n.func, ast.Attribute) and n.func.attr in ('casefold', 'lower', 'upper') and not n.args]
+    ctx.check('C18.S1', not folds_, fs, guards[0], f'containment test `{ast.unparse(test)[:140]}` compares case-folded text (`{ast.unparse(folds_[0])[:50] if folds_ else ""}`): a sibling directory whose name differs from '
+              "the root's only in letter case passes it and is then opened under its real spelling", func='RawFileSystem._resolve_path', text='containment test on exact spelling')
     # ---- S3 ------------------------------------------------------------------------------------------------
     ok = all(isinstance(r.exc, ast.Call) and dotted(r.exc.func) == 'RootEscapeError' for r in raises) and bool(raises)
     ctx.check('C18.S3', ok, fs, raises[0] if raises else rp, '_resolve_path must raise RootEscapeError', func='RawFileSystem._resolve_path', text='raises RootEscapeError')
@@ -243,6 +265,10 @@ def run(ctx: Any, prog: Program) -> None:
 
 
 MUTANTS = [
+    {'id': 'containment_on_folded_text', 'file': 'filesys.py', 'find': "        if self.constrain_path and abs_path != self.path and not abs_path.startswith(os.path.join(self.path, '')):", 'replace': "        if self.constrain_path and abs_path.lower() != self.path.lower() and not abs_path.lower().startswith(os.path.join(self.path.lower(), '')):", 'expect': 'C18.S1'},
+    {'id': 'ok_containment_normcase', 'file': 'filesys.py', 'find': "        if self.constrain_path and abs_path != self.path and not abs_path.startswith(os.path.join(self.path, '')):", 'replace': "        if self.constrain_path and os.path.normcase(abs_path) != os.path.normcase(self.path) and not os.path.normcase(abs_path).startswith(os.path.join(os.path.normcase(self.path), '')):", 'expect': None},
+    {'id': 'cached_prefix_from_raw_argument', 'file': 'filesys.py', 'find': "        self.constrain_path = constrain_path\n", 'replace': "        self.constrain_path = constrain_path\n        self._prefix = self.path if str(path).endswith((os.sep, '/')) else self.path + os.sep\n", 'extra': [{'file': 'filesys.py', 'find': "not abs_path.startswith(os.path.join(self.path, '')):", 'replace': "not abs_path.startswith(self._prefix):"}], 'expect': 'C18.S1'},
+    {'id': 'ok_cached_prefix', 'file': 'filesys.py', 'find': "        self.constrain_path = constrain_path\n", 'replace': "        self.constrain_path = constrain_path\n        self._prefix = os.path.join(self.path, '')\n", 'extra': [{'file': 'filesys.py', 'find': "not abs_path.startswith(os.path.join(self.path, '')):", 'replace': "not abs_path.startswith(self._prefix):"}], 'expect': None},
     {'id': 'unify_path_prefix_test_only', 'file': 'packlist.py', 'find': "    if '../' in path:", 'replace': "    if path.startswith('../'):", 'expect': 'C18.S5'},
     {'id': 'relpath_misses_exact_parent', 'file': 'filesys.py', 'find': "        if self.constrain_path and abs_path != self.path and not abs_path.startswith(os.path.join(self.path, '')):", 'replace': "        if self.constrain_path and os.path.relpath(abs_path, self.path).startswith(os.pardir + os.sep):", 'expect': 'C18.S1'},
     {'id': 'relpath_sound_form', 'file': 'filesys.py', 'find': "        if self.constrain_path and abs_path != self.path and not abs_path.startswith(os.path.join(self.path, '')):", 'replace': "        if self.constrain_path and (os.path.relpath(abs_path, self.path) == os.pardir or os.path.relpath(abs_path, self.path).startswith(os.pardir + os.sep)):", 'expect': None},
